@@ -417,4 +417,61 @@ theorem parseDec_intText (n : Int) : parseDec (intText n) = some (n : Rat) := by
     congr 1
     rw [natAbs_cast_of_nonneg (by omega : 0 ≤ n)]; simp
 
+/-! ### `mapE`, folds -/
+
+theorem mapE_length {α β ε : Type} (f : α → Except ε β) (l : List α) (r : List β) (h : mapE f l = .ok r) :
+    r.length = l.length := by
+  induction l generalizing r with
+  | nil => simp only [mapE, Except.ok.injEq] at h; subst h; rfl
+  | cons a as ih =>
+    unfold mapE at h
+    split at h
+    · exact absurd h (by simp)
+    · split at h
+      · exact absurd h (by simp)
+      · rename_i bs hbs
+        simp only [Except.ok.injEq] at h; subst h
+        simp [ih _ hbs]
+
+theorem mapE_cols {α : Type} (g : α → Except Err (List Char)) (idx : α → Nat) (l : List α) (r : List Col)
+    (h : mapE (fun a => (g a).map (fun t => ((idx a, t) : Col))) l = .ok r) :
+    r.map (·.1) = l.map idx ∧ ∀ p ∈ r, ∃ a ∈ l, g a = .ok p.2 := by
+  induction l generalizing r with
+  | nil => simp only [mapE, Except.ok.injEq] at h; subst h; simp
+  | cons a as ih =>
+    unfold mapE at h
+    split at h
+    · exact absurd h (by simp)
+    · rename_i b hb
+      split at h
+      · exact absurd h (by simp)
+      · rename_i bs hbs
+        simp only [Except.ok.injEq] at h; subst h
+        obtain ⟨h1, h2⟩ := ih _ hbs
+        cases hg : g a with
+        | error e => rw [hg] at hb; exact absurd hb (by simp [Except.map])
+        | ok t =>
+          rw [hg] at hb
+          simp only [Except.map, Except.ok.injEq] at hb
+          subst hb
+          refine ⟨by simp [h1], ?_⟩
+          intro p hp
+          simp only [List.mem_cons] at hp
+          rcases hp with rfl | hp
+          · exact ⟨a, by simp, hg⟩
+          · obtain ⟨a', ha', hga'⟩ := h2 p hp
+            exact ⟨a', by simp [ha'], hga'⟩
+
+theorem foldl_pick_mem (pick : Rat → Rat → Rat) (hp : ∀ a b, pick a b = a ∨ pick a b = b) (xs : List Rat) (a : Rat) :
+    xs.foldl pick a = a ∨ xs.foldl pick a ∈ xs := by
+  induction xs generalizing a with
+  | nil => left; rfl
+  | cons x xs ih =>
+    simp only [List.foldl_cons, List.mem_cons]
+    rcases ih (pick a x) with h | h
+    · rcases hp a x with h' | h'
+      · left; rw [h, h']
+      · right; left; rw [h, h']
+    · right; right; exact h
+
 end TD.C10
